@@ -895,6 +895,7 @@ def C04(ctx):
     cur_by_target = {}
     maybe_silent = set()
     in_root_entry = set()
+    in_aborted_entry = set()   # submitted to a submachine during its entry, which an exception then aborted (backmp11 keeps the pool content)
     for i, c in enumerate(ctx.case):
         if i >= len(ctx.sut):
             break
@@ -939,6 +940,9 @@ def C04(ctx):
                     maybe_silent.add(pl)
                 if opk == 'S' and last_cb and last_cb[0] == 'en' and last_cb[1] == root:
                     in_root_entry.add(pl)
+                if tgt != root and any(x.startswith('en:%s/' % tgt) for x in toks[:k]) and '!throw' in toks[k:]:
+                    # stored in the pool of a submachine that is being entered, and the entry is then aborted by an exception
+                    in_aborted_entry.add(pl)
                 nsub += 1
                 if tgt != root or (last_cb and last_cb[0] == 'en'):
                     nested_or_entry = True
@@ -975,8 +979,11 @@ def C04(ctx):
                                 classes['possibly_silent_dispatch'] += 1
                             if not q or q[0] != pl:
                                 if pl in q:
+                                    sig = None
+                                    if dialect_of(ctx.cfg) == 'mp11' and all(x in in_aborted_entry for x in q[:q.index(pl)]):
+                                        sig = 'mp11_stale_completion_occurrence_after_throw_in_entry'    # same root cause, user occurrence
                                     fail('C04', 'occurrence #%d sent to %s dispatched before older pending occurrences %s (not FIFO)'
-                                         % (pl, tg, q[:q.index(pl)]), ctx, i)
+                                         % (pl, tg, q[:q.index(pl)]), ctx, i, sig=sig)
                                 fail('C04', 'occurrence #%d dispatched although it is not pending' % pl, ctx, i)
                             q.pop(0)
             k += 1
